@@ -168,7 +168,7 @@ def run_fault_histories(root, tag, compiler, seed, n_hist, n_req, sc_env=None):
     return {'requests': reqs, 'fault_kinds': kinds, 'fails': fails, 'samples': samples}
 
 # ------------------------------------------------------------------------------------------------ read-only cache (C15)
-def run_readonly(root, tag, compiler, seed, n_hist, n_req, oversize=False):
+def run_readonly(root, tag, compiler, seed, n_hist, n_req, oversize=False, damage=True):
     rng = random.Random(seed); fails = []; reqs = hits = 0; entries = 0; samples = []
     for h in range(n_hist):
         direct = (h % 2 == 0)
@@ -179,10 +179,21 @@ def run_readonly(root, tag, compiler, seed, n_hist, n_req, oversize=False):
             w.request('populate 1')
             for i in range(5): w.request('populate: ' + mutate(w, rng))
             w.sc.stop()
+            damaged = 0
+            if damage and h % 2 == 1:
+                # a shared read-only cache can hold entries cut short by an interrupted copy: they are part of the pre-populated state
+                files = sorted(os.path.join(dp, f) for dp, _, fs in os.walk(w.sc.cache) for f in fs)
+                for f in [f for f in files if rng.random() < 0.6] or files[:1]:
+                    size = os.path.getsize(f); how = rng.randrange(3)
+                    with open(f, 'r+b') as fh:
+                        if how == 0: fh.truncate(size // 2)
+                        elif how == 1: fh.truncate(0)
+                        else: fh.seek(0); fh.write(bytes(rng.randrange(256) for _ in range(min(size, 64))))
+                    damaged += 1; w.trace.append(f'--- damaged {os.path.relpath(f, w.sc.cache)} ({("cut in half", "emptied", "first 64 bytes overwritten")[how]})')
             before = listing(w.sc.cache); entries += len(before)
             ro_env = {'SCCACHE_LOCAL_RW_MODE': 'READ_ONLY'}
             if oversize: ro_env['SCCACHE_CACHE_SIZE'] = '1K'
-            if h % 3 == 1: ro_env['SCCACHE_RECACHE'] = '1'
+            if h % 3 == 2: ro_env['SCCACHE_RECACHE'] = '1'
             w.sc.env.update(ro_env); w.sc.start(); w.trace.append(f'--- server restarted read-only {ro_env}')
             h0 = w.hits
             recache = 'SCCACHE_RECACHE' in ro_env
@@ -191,7 +202,7 @@ def run_readonly(root, tag, compiler, seed, n_hist, n_req, oversize=False):
                 if note == 'restart': w.trace.append('(restart keeps the read-only environment)')
                 # in read-only mode nothing new is ever stored: only what was populated can hit
                 fp = w.fingerprint(); known = fp in w.seen
-                w.request(note, expect_cacheable=(known and not recache and not oversize))
+                w.request(note, expect_cacheable=(known and not recache and not oversize and not damaged))
                 if not known: w.seen.pop(fp, None)
             w.sc.stop()
             after = listing(w.sc.cache)
